@@ -85,6 +85,8 @@ func init() {
 			"Early finishes in which completion text, text matching the event's expected response and the prompt arrive in one atomic segment (completion wins), and escalations without a password question whose notice line matches a loose escalate prompt in one segment with the prompt (own bare-text levels; cumulus_linux 'sudo: unable to resolve host ...'). " +
 			"Pairs of sessions that are sent the SAME event objects, one with the default prompt pattern and one with a strict pattern of its own whose device prints default-prompt-looking lines ahead of its real prompt (both orders). " +
 			"In exact mode a third of the plain commands are multi-line inputs whose last line recurs inside an earlier line, echoed in segments. " +
+			"Completion-pattern slices are handed over as literals or with spare capacity (len 1-3, cap = len+1..2), in dialogues whose last event waits for the prompt while earlier events that wait for a response of their own see prompt-looking progress lines first. " +
+			"A sixth of the echo-matched inputs end in 1-3 spaces/tabs (echoed like any byte). " +
 			"Distinct = distinct descriptor hash.",
 		Assumptions: []string{
 			"device is causal (devsim.CLI): echoes visible input, reads hidden input without echo, reacts to a line only when its return arrived",
